@@ -95,6 +95,11 @@ fn check_low(c: &LowCase, obs: &mut Obs) -> Result<(), String> {
         nonnormal |= (1..t.len()).any(|b| t.based_code(b) != t.based_code(0));
         count += 1;
     }
+    // iterator protocol: nth / skip / step_by / take / last / count agree with repeated next()
+    if count <= 300 {
+        let (g, k) = (c.nr_gens, c.k);
+        crate::util::iter_protocol(|| coset_tables(g, &rels, k), |ct| read_table(ct, g).map(|t| t.based_code(0)).map_err(|_| ()), 6, "coset_tables")?;
+    }
     for j in 1..=c.k {
         let e = expect.get(&j).cloned().unwrap_or_default();
         let g = got.get(&j).cloned().unwrap_or_default();
